@@ -81,27 +81,14 @@ Section CntP.
   Lemma cnt_in id l y : In y l -> holds key id y <= cnt key id l.
   Proof. intros H. apply In_nth_error in H. destruct H as [k H]. eapply cnt_nth; eauto. Qed.
 
-  Lemma cnt_two id l k1 k2 y1 y2 : k1 <> k2 -> nth_error l k1 = Some y1 -> nth_error l k2 = Some y2 ->
+  (* two different positions referring to the same identity count twice *)
+  Lemma cnt_two id l : forall k1 k2 y1 y2, k1 <> k2 -> nth_error l k1 = Some y1 -> nth_error l k2 = Some y2 ->
     holds key id y1 + holds key id y2 <= cnt key id l.
   Proof.
-    intros Hne H1 H2.
-    pose proof (cnt_setn id l k1 y2 y1 H1) as E.
-    assert (H2' : nth_error (setn l k1 y2) k2 = Some y2) by (rewrite nth_error_setn_ne; auto).
-    pose proof (cnt_nth id _ _ _ H2') as L1.
-    assert (H1' : nth_error (setn l k1 y2) k1 = Some y2) by (eapply nth_error_setn_eq; eauto).
-    pose proof (cnt_two_aux := cnt_setn id (setn l k1 y2) k2 y2 y2 H2').
-    (* count y2 at two distinct positions of l[k1:=y2] *)
-    clear cnt_two_aux.
-    revert k1 k2 Hne H1 H2 E H2' L1 H1'.
-    induction l as [|z l IH]; intros [|k1] [|k2] Hne H1 H2 E H2' L1 H1'; simpl in *; try discriminate; try congruence.
+    induction l as [|z l IH]; intros [|k1] [|k2] y1 y2 Hne H1 H2; simpl in *; try discriminate; try congruence.
     - injection H1 as ->. pose proof (cnt_nth id l k2 y2 H2). lia.
     - injection H2 as ->. pose proof (cnt_nth id l k1 y1 H1). lia.
-    - assert (k1 <> k2) by congruence.
-      pose proof (cnt_setn id l k1 y2 y1 H1) as E'.
-      assert (nth_error (setn l k1 y2) k2 = Some y2) by (rewrite nth_error_setn_ne; auto).
-      pose proof (cnt_nth id _ _ _ H0).
-      assert (nth_error (setn l k1 y2) k1 = Some y2) by (eapply nth_error_setn_eq; eauto).
-      specialize (IH k1 k2 H H1 H2 E' H0 H3 H4). lia.
+    - assert (k1 <> k2) by congruence. specialize (IH k1 k2 y1 y2 H H1 H2). lia.
   Qed.
 
   Lemma cnt_all_none id l : (forall a, In a l -> key a = None) -> cnt key id l = 0.
